@@ -103,6 +103,7 @@ type tr struct {
 	fn       string
 	nResults int      // number of results of the Go function
 	resTypes []string // per result: "Int" | "Bool" | struct | "Error" (non-prefix mode)
+	initOnly map[string]bool // names introduced only by `if v := …;` init statements (dead after their if)
 	loop     bool     // loop mode: element expressions are variables
 	elems    []string // element variables in order of first occurrence
 	stored   []string // element variables stored to, in order of first store
@@ -797,6 +798,24 @@ func (t *tr) block(stmts []ast.Stmt, fin string, ind string) (out string) {
 				if pc := t.errGuard(x); pc != "" {
 					return ind + "if (!" + pc + ") then\n" + ind + "  false\n" + ind + "else\n" + t.block(rest, fin, ind+"  ")
 				}
+			}
+			// `if v := e; cond {…}`: the init statement runs first; its variables are scoped to the if in
+			// Go. Lean `let` would leak them into the continuation, so a name already bound is refused.
+			if as, ok := x.Init.(*ast.AssignStmt); ok && as.Tok == token.DEFINE {
+				for _, l := range as.Lhs {
+					if id, ok := l.(*ast.Ident); ok && id.Name != "_" {
+						if _, bound := t.env[id.Name]; bound && !t.initOnly[id.Name] {
+							t.fail(s, "if-init variable %s shadows an existing binding", id.Name)
+						}
+						if t.initOnly == nil {
+							t.initOnly = map[string]bool{}
+						}
+						t.initOnly[id.Name] = true // Go scopes it to this if: nothing after the if can refer to it
+					}
+				}
+				plain := *x
+				plain.Init = nil
+				return t.block(append([]ast.Stmt{x.Init, &plain}, rest...), fin, ind)
 			}
 			t.fail(s, "if with init statement")
 		}
